@@ -428,6 +428,18 @@ HxcMfmFile::read_all_sectors(unsigned int side,
       if (key.side_number != side)
 	continue;
 
+      // The track size comes from the file; don't let a corrupt value
+      // make us try to allocate gigabytes.  A real track is a few
+      // thousand bytes (6250 at 250kbps/300rpm).
+      const unsigned long max_track_bytes = 1024uL * 1024uL;
+      if (td.mfmtracksize > max_track_bytes)
+	{
+	  std::ostringstream ss;
+	  ss << "image file contains metadata for track " << key.track_number
+	     << " stating that the data is " << td.mfmtracksize
+	     << " bytes long, which is not plausible";
+	  throw InvalidHxcMfmFile(ss.str());
+	}
       std::vector<byte> track = file_->read(td.mfmtrackoffset, td.mfmtracksize);
       if (track.size() != td.mfmtracksize)
 	{
